@@ -2219,7 +2219,7 @@ pub fn write_message<W: Write>(
 /// Run end encoded type has no validity bitmap.
 fn has_validity_bitmap(data_type: &DataType, write_options: &IpcWriteOptions) -> bool {
     if write_options.metadata_version < crate::MetadataVersion::V5 {
-        !matches!(data_type, DataType::Null)
+        !matches!(data_type, DataType::Null | DataType::RunEndEncoded(_, _))
     } else {
         !matches!(
             data_type,
